@@ -138,27 +138,27 @@ def step (st : St) (tok : String) : St × String :=
     | none => (st, "bad-arg")
   | ["e_create", p, f] =>                                   -- named working-directory edits of the quantifier
     match wd? (p ++ "=" ++ f) with
-    | some [(p, f)] => ({ st with w := applyEdit st.env st.w (.create p f) }, "ok")
+    | some [(p, f)] => ({ st with w := applyEdit cur st.env st.w (.create p f) }, "ok")
     | _ => (st, "bad-arg")
   | ["e_chmod", p, f] =>
     match wd? (p ++ "=" ++ f) with
-    | some [(p, f)] => ({ st with w := applyEdit st.env st.w (.chmod p f.kind f.stat) }, "ok")
+    | some [(p, f)] => ({ st with w := applyEdit cur st.env st.w (.chmod p f.kind f.stat) }, "ok")
     | _ => (st, "bad-arg")
   | ["e_modify", p, f] =>
     match wd? (p ++ "=" ++ f) with
-    | some [(p, f)] => ({ st with w := applyEdit st.env st.w (.modify p f.cid f.stat) }, "ok")
+    | some [(p, f)] => ({ st with w := applyEdit cur st.env st.w (.modify p f.cid f.stat) }, "ok")
     | _ => (st, "bad-arg")
   | ["e_delete", p] =>
     match bytes? p with
-    | some p => ({ st with w := applyEdit st.env st.w (.delete p) }, "ok")
+    | some p => ({ st with w := applyEdit cur st.env st.w (.delete p) }, "ok")
     | none => (st, "bad-arg")
   | ["e_rmtree", p] =>
     match bytes? p with
-    | some p => ({ st with w := applyEdit st.env st.w (.rmtree p) }, "ok")
+    | some p => ({ st with w := applyEdit cur st.env st.w (.rmtree p) }, "ok")
     | none => (st, "bad-arg")
   | ["e_mkdir", p] =>
     match bytes? p with
-    | some p => ({ st with w := applyEdit st.env st.w (.mkdir p) }, "ok")
+    | some p => ({ st with w := applyEdit cur st.env st.w (.mkdir p) }, "ok")
     | none => (st, "bad-arg")
   | ["stage", p] =>
     match bytes? p with
@@ -166,25 +166,25 @@ def step (st : St) (tok : String) : St × String :=
     | none => (st, "bad-arg")
   | ["addpath", p] =>
     match bytes? p with
-    | some p => opResult st (addPath st.w p)
+    | some p => opResult st (addPath cur st.w p)
     | none => (st, "bad-arg")
   | ["unstage", p] =>
     match bytes? p with
-    | some p => opResult st (unstage st.env st.w p)
+    | some p => opResult st (unstage cur st.env st.w p)
     | none => (st, "bad-arg")
   | ["rmc", p] =>
     match bytes? p with
     | some p => opResult st (rmCached st.w p)
     | none => (st, "bad-arg")
-  | ["addall"] => opResult st (stageAll st.w)
+  | ["addall"] => opResult st (stageAll cur st.w)
   | ["clearidx"] => ({ st with w := clearIndex st.w }, "ok")
   | ["switch", name] =>
     match st.trees.lookup name with
     | some t =>
-      let r := switchTo st.w t st.obs
+      let r := switchTo cur st.w t st.obs
       ({ st with w := r.world }, match r.err with | none => "ok" | some e => s!"err:{e}")
     | none => (st, "bad-arg")
-  | ["status"] => (st, showStatus (status st.w))
+  | ["status"] => (st, showStatus (status cur st.w))
   | ["index"] => (st, showIndex st.w.index)
   | ["files"] => (st, showFiles st.w.wd)
   | _ => (st, "bad-step")
